@@ -58,6 +58,12 @@ theorem RE_delayCore {s : SeqState} (hi : SeqInv s) (d : Int) (n : ChName) (atRe
             | ok l => simp [hl, bind, Except.bind] at h
           · exact addDelay_ge hc h
 
+theorem RE_delayChecked {s : SeqState} (hi : SeqInv s) (d : Int) (n : ChName) (atRest : Bool) :
+    RX XE s (delayChecked s d n atRest) := by
+  rcases delayChecked_cases s d n atRest with h | ⟨e, h⟩ <;> rw [h]
+  · exact RE_delayCore hi d n atRest
+  · exact RX_fail hi e
+
 theorem RE_alignLoop {s : SeqState} (hi : SeqInv s) (tf : Int) (l : List (ChName × Int)) :
     RX XE s (alignLoop tf l s) := by
   induction l generalizing s with
@@ -296,7 +302,7 @@ theorem stepRaw_RE {s : SeqState} (hd : DevOk s.dev) (hde : DevOkE s.dev) (hi : 
             rw [validateChannel_get hv] at hc'; injection hc' with hc'; subst hc'
             rw [hg] at hb'; injection hb' with hb'; subst hb'
             exact ⟨rfl, rfl, rfl⟩
-  | delay d n atRest => exact RX_store _ (RE_delayCore hi _ _ _)
+  | delay d n atRest => exact RX_store _ (RE_delayChecked hi _ _ _)
   | align chs atRest =>
     simp only [stepRaw]
     apply RX_store
